@@ -129,19 +129,6 @@ def row (m : Csr) (v : Nat) : Row :=
 /-- The topology the default methods see. -/
 def topo (m : Csr) : Topo := ⟨m.n, m.row⟩
 
-/-- sprs' `check_compressed_structure` for a square matrix: `indptr` non-empty
-and non-decreasing, `nnz = last - first = indices.len() = data.len()`, every
-row strictly increasing and below `n`. -/
-def valid (m : Csr) : Bool :=
-  m.indptr.length ≥ 1 &&
-  (List.range m.n).all (fun v => decide (m.indptr.getD v 0 ≤ m.indptr.getD (v + 1) 0)) &&
-  decide (m.indptr.getD m.n 0 - m.offset = m.indices.length) &&
-  decide (m.indices.length = m.data.length) &&
-  (List.range m.n).all (fun v =>
-    let r := (m.row v).map (·.1)
-    r.all (fun u => decide (u < m.n)) &&
-    (List.range (r.length - 1)).all (fun i => decide (r.getD i 0 < r.getD (i + 1) 0)))
-
 end Csr
 
 /-- Which `indptr` the specialisation slices with.  The code as it stands uses
